@@ -69,6 +69,12 @@ end Grid3
 is clamped to 0 here; that it never occurs is a C12 obligation). -/
 @[inline] def nb (i : Nat) (s : Int) : Nat := (Int.ofNat i - s).toNat
 
+/-- Python's `range(a, b, c)` as the list of its values (`c ≠ 0`) -/
+def pyRange (a b c : Int) : List Int :=
+  if c > 0 then (List.range ((b - a + c - 1) / c).toNat).map fun (k : Nat) => a + c * (k : Int)
+  else if c < 0 then (List.range ((a - b + (-c) - 1) / (-c)).toNat).map fun (k : Nat) => a + c * (k : Int)
+  else []
+
 /-- errors the kernels raise -/
 inductive Err where
   | sourceOutOfBound      -- ValueError("source out of bound")
